@@ -5,12 +5,16 @@ import (
 	"net/http"
 	"net/http/httptest"
 	"net/url"
+	"strings"
+	"sync"
+	"time"
 
 	"github.com/vicanso/elton"
 	"github.com/vicanso/pike/config"
 
 	"github.com/vicanso/pike/cache"
 	"github.com/vicanso/pike/server"
+	"github.com/vicanso/pike/store"
 	"pikeverif/internal/hx"
 )
 
@@ -43,7 +47,7 @@ func genKeyGroup(r *hx.Rand) []keyReq {
 func runKeys(seed uint64, n int, tier string, out string, replay string) {
 	rnd := hx.NewRand(seed)
 	sum := hx.NewSummary("keys", seed)
-	sum.Rule = "one case = a group of 24 near-identical requests (methods GET/HEAD, hosts differing by port/one byte/empty, URIs differing by one byte, by query order, by trailing space or slash; 10% with empty RequestURI so URL.String() is used) run through the real getKey, plus one dispatcher run (size 8..24) over those keys rejection-sampled into a single shard with 150 mixed lookups/removals; non-trivial = the group contains two requests differing only in one component; distinct by the group's key bytes"
+	sum.Rule = "one case = a group of 24 near-identical requests (methods GET/HEAD, hosts differing by port/one byte/empty, URIs differing by one byte, by query order, by trailing space or slash; 10% with empty RequestURI so URL.String() is used) run through the real getKey, plus one dispatcher run (size 8..24) over those keys rejection-sampled into a single shard with 150 mixed lookups/removals; non-trivial = the group contains two requests differing only in one component; distinct by the group's key bytes; plus 50 near-identical keys of 8-4000 bytes (last byte / middle byte / method / host differ) requested at random on a 16-slot store-backed dispatcher (constant eviction and rebuild from the persisted copy)"
 	header := "From Coq Require Import List NArith ZArith.\nImport ListNotations.\nFrom Pike Require Import Base.Bytes Model.Key Model.Dispatcher Corr.C11Corr Corr.C06Corr.\nFrom PikeRun Require Import Consts.\n"
 	w := hx.NewCaseWriter(out, "keys", header, "list c06_case", "check_cases Consts.disp_consts", 12, sum)
 	distinct := hx.NewDistinct()
@@ -139,9 +143,107 @@ func runKeys(seed uint64, n int, tier string, out string, replay string) {
 	if crossServed != nil {
 		sum.ImplViolations = append(sum.ImplViolations, crossServed)
 	}
+	if v := longKeysWithStore(hx.NewRand(seed+77), 400+n*2, sum); v != nil {
+		sum.ImplViolations = append(sum.ImplViolations, v)
+	}
 	w.Flush()
 	sum.DistinctNontrivial = distinct.Len()
 	sum.Write(out)
+}
+
+// memStore: in-memory store.Store (copies what it is given)
+type memStore struct {
+	mu   sync.Mutex
+	data map[string][]byte
+}
+
+func (m *memStore) Get(key []byte) ([]byte, error) {
+	m.mu.Lock()
+	defer m.mu.Unlock()
+	v, ok := m.data[string(key)]
+	if !ok {
+		return nil, store.ErrNotFound
+	}
+	return append([]byte{}, v...), nil
+}
+func (m *memStore) Set(key []byte, data []byte, ttl time.Duration) error {
+	m.mu.Lock()
+	defer m.mu.Unlock()
+	m.data[string(key)] = append([]byte{}, data...)
+	return nil
+}
+func (m *memStore) Delete(key []byte) error {
+	m.mu.Lock()
+	defer m.mu.Unlock()
+	delete(m.data, string(key))
+	return nil
+}
+func (m *memStore) Close() error { return nil }
+
+// longKeysWithStore: families of near-identical keys of every length from a
+// few bytes to several KiB (differing in the last byte, in one middle byte, in
+// the method or in the host) on a 16-slot dispatcher backed by a store, so
+// that entries are constantly evicted and rebuilt from their persisted copy;
+// every reply must be the one produced for its own key.
+func longKeysWithStore(rnd *hx.Rand, nreq int, sum *hx.Summary) map[string]interface{} {
+	const name = "longkeys"
+	const url = "fake://longkeys"
+	ms := &memStore{data: map[string][]byte{}}
+	store.VerifRegister(url, ms)
+	defer store.VerifUnregister(url)
+	cache.ResetDispatchers([]config.CacheConfig{{Name: name, Size: 16, HitForPass: "5m", Store: url}})
+	defer cache.ResetDispatchers(nil)
+	s := server.NewServer(server.ServerOption{Cache: name})
+	handler := server.NewCache(s)
+	type kreq struct{ method, host, uri string }
+	var keys []kreq
+	for _, l := range []int{8, 60, 250, 500, 512, 520, 700, 1024, 2000, 4000} {
+		base := "/" + strings.Repeat("p", l) + "?page="
+		mid := []byte(base)
+		mid[len(mid)/2] = 'q'
+		keys = append(keys,
+			kreq{"GET", "long.example", base + "1"}, kreq{"GET", "long.example", base + "2"},
+			kreq{"GET", "long.example", string(mid) + "1"}, kreq{"HEAD", "long.example", base + "1"},
+			kreq{"GET", "lonh.example", base + "1"})
+	}
+	wrong, hits := 0, 0
+	var first string
+	for i := 0; i < nreq; i++ {
+		k := keys[rnd.Intn(len(keys))]
+		req := httptest.NewRequest(k.method, "http://"+k.host+k.uri, nil)
+		c := elton.NewContext(httptest.NewRecorder(), req)
+		want := fmt.Sprintf("%s %s len=%d sum=%x", k.method, k.host, len(k.uri), cache.MemHash([]byte(k.uri)))
+		c.Next = func() error {
+			h := http.Header{}
+			h.Set("X-Made-For", want)
+			server.VerifSetHTTPResp(c, &cache.HTTPResponse{StatusCode: 200, Header: h, RawBody: []byte(want)})
+			server.VerifSetHTTPCacheMaxAge(c, 300)
+			return nil
+		}
+		if err := handler(c); err != nil {
+			continue
+		}
+		resp := server.VerifGetHTTPResp(c)
+		if server.VerifGetCacheStatus(c) == cache.StatusHit {
+			hits++
+		}
+		if resp == nil || resp.Header.Get("X-Made-For") != want {
+			wrong++
+			if first == "" {
+				got := "<nil>"
+				if resp != nil {
+					got = resp.Header.Get("X-Made-For")
+				}
+				first = fmt.Sprintf("request %s %s (URI of %d bytes) was answered with the response made for %q", k.method, k.host, len(k.uri), got)
+			}
+		}
+	}
+	sum.Distribution["longkey_requests"] = nreq
+	sum.Distribution["longkey_hits"] = hits
+	if wrong > 0 {
+		return map[string]interface{}{"property": "C06", "kind": "cross-served-long-keys", "count": wrong, "first": first, "same_key": "cross-served after reload from the store"}
+	}
+	return nil
 }
 
 func manyKeysThroughMiddleware(nkeys int, sum *hx.Summary) map[string]interface{} {
